@@ -1192,7 +1192,7 @@ package analysis
 //@   loop 5: modifies heap spec.Parameter, map s.allSchemas, map s.allOfs, map s.references.schemas, map s.references.responses, map s.references.parameters, map s.references.items, map s.references.headerItems, map s.references.parameterItems, map s.references.allRefs, map s.patterns.parameters, map s.patterns.headers, map s.patterns.items, map s.patterns.schemas, map s.patterns.allPatterns, map s.enums.parameters, map s.enums.headers, map s.enums.items, map s.enums.schemas, map s.enums.allEnums
 //@   loop 6: modifies heap spec.Response, map s.allSchemas, map s.allOfs, map s.references.schemas, map s.references.responses, map s.references.parameters, map s.references.items, map s.references.headerItems, map s.references.parameterItems, map s.references.allRefs, map s.patterns.parameters, map s.patterns.headers, map s.patterns.items, map s.patterns.schemas, map s.patterns.allPatterns, map s.enums.parameters, map s.enums.headers, map s.enums.items, map s.enums.schemas, map s.enums.allEnums
 
-//@ fun opAtM(pi spec.PathItem, M string) *spec.Operation = if M == "GET" then pi.Get else if M == "PUT" then pi.Put else if M == "POST" then pi.Post else if M == "PATCH" then pi.Patch else if M == "DELETE" then pi.Delete else if M == "HEAD" then pi.Head else if M == "OPTIONS" then pi.Options else nil
+//@ ofun opAtM(pi spec.PathItem, M string) *spec.Operation = if M == "GET" then pi.Get else if M == "PUT" then pi.Put else if M == "POST" then pi.Post else if M == "PATCH" then pi.Patch else if M == "DELETE" then pi.Delete else if M == "HEAD" then pi.Head else if M == "OPTIONS" then pi.Options else nil
 
 //@ func (s *Spec) analyzeOperations(path, pi)
 //@   aspect ops
